@@ -135,7 +135,16 @@ func (s *sub) Unsubscribe(clientID string, topics ...string) error {
 	defer s.mu.Unlock()
 	c := s.pool.Get()
 	defer c.Close()
-	_, err := c.Do("hdel", subPrefix+clientID, topics)
+	if len(topics) == 0 {
+		return nil
+	}
+	// one argument per field: a []string passed as a single argument is formatted as "[a b]"
+	args := make([]interface{}, 0, len(topics)+1)
+	args = append(args, subPrefix+clientID)
+	for _, t := range topics {
+		args = append(args, t)
+	}
+	_, err := c.Do("hdel", args...)
 	if err != nil {
 		return err
 	}
